@@ -18,10 +18,11 @@ import (
 // state of the branch it is built on (selectors are taken modulo the number of
 // candidates), so every description yields a well-defined transaction or is skipped.
 type TxDesc struct {
-	Kind string `json:"kind"` // spend, vote, veto, register, issue, xfer, retire, bad-*
+	Kind string `json:"kind"` // spend, vote, veto, register, issue, xfer, retire, pay, payvote, bad-*
 	Pick []int  `json:"pick,omitempty"`
 	N    int    `json:"n,omitempty"`
 	Amt  int    `json:"amt,omitempty"`
+	Prog string `json:"prog,omitempty"` // pay / payvote: hex control program of the first output
 }
 
 // SupDesc describes one signature slot placed in the header supLinks of a checkpoint block.
@@ -39,6 +40,12 @@ type BlockDesc struct {
 	Sup    []SupDesc `json:"sup,omitempty"`
 	Mut    string    `json:"mut,omitempty"` // single-rule header/coinbase mutation (C13); "" = none
 	MutArg int       `json:"mut_arg,omitempty"`
+	// Raw are complete serialised transactions (hex, as Tx.MarshalText gives) appended after the
+	// resolved ones, e.g. transactions built and signed by a wallet at run time.  They are taken
+	// as they are; the model folds them like any other transaction.
+	Raw []string `json:"raw,omitempty"`
+	// CoinbaseProg overrides the proposer's coinbase program (hex), e.g. a wallet's coinbase program.
+	CoinbaseProg string `json:"coinbase_prog,omitempty"`
 }
 
 // TreeDesc is a whole generated world.
@@ -334,6 +341,32 @@ func (w *World) resolveTx(s *State, h uint64, d TxDesc, salt uint64) (tx *types.
 		}
 		outs := []*types.TxOutput{types.NewOriginalTxOutput(btm, a.Amount+1, progTrue, nil)}
 		return finishTx(&types.TxData{Inputs: []*types.TxInput{spendInput(a)}, Outputs: outs}), true
+	case "pay", "payvote":
+		prog := mustHex(d.Prog)
+		if len(prog) == 0 {
+			return nil, false
+		}
+		cands := filter(spendableBTM, func(u *Utxo) bool { return u.Amount > 3*consensus.MinVoteOutputAmount+fee })
+		a := pick(cands, d.Pick, 0)
+		if a == nil {
+			return nil, false
+		}
+		avail := a.Amount - fee
+		amt := consensus.MinVoteOutputAmount * uint64(1+abs(d.Amt)%5)
+		if amt > avail {
+			amt = avail
+		}
+		var outs []*types.TxOutput
+		if d.Kind == "payvote" {
+			key := Key(abs(d.N) % NumKeys).XPub()
+			outs = append(outs, types.NewVoteOutput(btm, amt, prog, key[:], nil))
+		} else {
+			outs = append(outs, types.NewOriginalTxOutput(btm, amt, prog, nil))
+		}
+		if avail > amt {
+			outs = append(outs, types.NewOriginalTxOutput(btm, avail-amt, progTrue, nil))
+		}
+		return finishTx(&types.TxData{Inputs: []*types.TxInput{spendInput(a)}, Outputs: outs}), true
 	case "register":
 		cands := filter(spendableBTM, func(u *Utxo) bool { return u.Amount > 3*consensus.BCRPRequiredBTMAmount+fee })
 		a := pick(cands, d.Pick, 0)
@@ -415,10 +448,13 @@ func abs(x int) int {
 
 // coinbase builds the coinbase transaction for a block at height h proposed by key
 // index pk, paying the given reward table when h is the first block of an epoch.
-func (w *World) coinbase(idx int, h uint64, pk int, rewards map[string]uint64, mut string, mutArg int) *types.Tx {
+func (w *World) coinbase(idx int, h uint64, pk int, rewards map[string]uint64, mut string, mutArg int, progOverride []byte) *types.Tx {
 	// the world index makes otherwise identical sibling blocks distinct
 	arbitrary := append([]byte{0x00}, []byte(strconv.FormatUint(h, 10)+"/"+strconv.Itoa(idx))...)
 	script := ProposerProgram(pk)
+	if len(progOverride) > 0 {
+		script = progOverride
+	}
 	outs := []*types.TxOutput{types.NewOriginalTxOutput(btm, 0, script, nil)}
 	if h%w.P.Epoch == 1 && h != 1 {
 		var progs []string
@@ -587,12 +623,21 @@ func (w *World) Add(bd BlockDesc) int {
 		}
 	}
 
+	for _, raw := range bd.Raw {
+		tx := &types.Tx{}
+		if err := tx.UnmarshalText([]byte(raw)); err != nil {
+			panic(fmt.Sprintf("chainkit: raw transaction does not decode: %v", err))
+		}
+		txs = append(txs, tx)
+		info.TxKinds = append(info.TxKinds, "raw")
+	}
+
 	cbMut := ""
 	if len(bd.Mut) > 3 && bd.Mut[:3] == "cb-" {
 		cbMut = bd.Mut
 		info.HdrBad = "coinbase: " + bd.Mut
 	}
-	txs[0] = w.coinbase(idx, h, pk, ps.Last.Rewards, cbMut, bd.MutArg)
+	txs[0] = w.coinbase(idx, h, pk, ps.Last.Rewards, cbMut, bd.MutArg, mustHex(bd.CoinbaseProg))
 
 	var bcTxs []*bc.Tx
 	for _, tx := range txs {
